@@ -324,6 +324,25 @@ pub fn logic_oracle(url: &str, text: &str, report: &mut Report, replay: &serde_j
 pub fn member_signature_oracle(report: &mut Report, url: &str, d: &Decl, tok: &str, replay: &serde_json::Value) {
   if let DeclKind::Class { members, .. } = &d.kind {
     let segs: Vec<&str> = tok.split(" | ").collect();
+    // a parameter property is a member of the class: `constructor(public readonly a: T)` declares `a`
+    for m in members {
+      let Member::Ctor { params, .. } = m else { continue };
+      for (p, prop) in params {
+        let Some((access, ro)) = prop else { continue };
+        let mine: Vec<&&str> = segs.iter().filter(|s| s.starts_with("prop ") && s.split(|c: char| !(c.is_alphanumeric() || c == '_')).any(|w| w == p.name)).collect();
+        if mine.is_empty() {
+          report.fail("oracle", "public-member-dropped", format!("{}: parameter property {} of class {} is not in the emitted class: {}", url, p.name, d.name, tok), replay.clone());
+          continue;
+        }
+        for seg in mine {
+          let words: Vec<&str> = seg.split(' ').collect();
+          let acc = if words.contains(&"priv") { Access::Priv } else if words.contains(&"prot") { Access::Prot } else { Access::Pub };
+          if acc != *access || (*access != Access::Priv && words.contains(&"readonly") != *ro) {
+            report.fail("oracle", "member-accessibility-changed", format!("{}: parameter property {} ({:?}, readonly {}) is emitted as `{}`", url, p.name, access, ro, seg), replay.clone());
+          }
+        }
+      }
+    }
     for m in members {
       let (name, access, is_static) = match m {
         Member::Prop { name, access, is_static, .. } => (name, *access, *is_static),
